@@ -1,5 +1,7 @@
 /-
-Model of the squashed unpacker (C06): `unpack.go` — `unpack` after fix 590c924e (entries whose joined, cleaned
+Model of the squashed unpacker (C06): `unpack.go` — every configuration of `Unpacker` (symlink resolution retain /
+non-retain, symlink error strategy, MaxPass, MaxSizeBytes, requirer with the required-link-target bookkeeping) —
+`unpack` after fix 590c924e (entries whose joined, cleaned
 path is not inside the target directory are skipped before anything is created), `pathOutsideBaseDirectory`,
 `UnpackSquashedFromTarball`'s three passes, directory entries created (fix 810097ff) — and `symlink.go` — `TargetOutsideRoot` (lexical), `RemoveObsoleteSymlinks` —
 over a POSIX-like file system state.
@@ -132,6 +134,7 @@ structure TarEntry where
   linkAbs : Bool                -- header.Linkname starts with "/"
   linkComps : List String       -- header.Linkname split on "/"
   linkRaw : String              -- header.Linkname
+  size : Nat                    -- header.Size
 deriving Repr
 
 /-- `symlink.TargetOutsideRoot(cleanPath, target)`: purely lexical -/
@@ -143,62 +146,155 @@ def targetOutsideRoot (cleanDir : List String) (targetAbs : Bool) (targetComps :
 def entryTarget (e : TarEntry) : Target :=
   if e.linkAbs then ⟨true, (cleanComps true e.linkComps).2, ""⟩ else ⟨false, e.linkComps, e.linkRaw⟩
 
+/-- `require.FileRequirer`: all, none, or a set of path strings -/
+inductive Req
+  | all
+  | none
+  | paths (ps : List String)
+
+/-- the unpacker's configuration (`Unpacker` after `NewUnpacker`) and the two facts about the process it depends on -/
+structure Cfg where
+  retain : Bool            -- SymlinkResolution = SymlinkRetain; false: links are written as copies of what they point to
+  errReturn : Bool         -- SymlinkErrStrategy = SymlinkErrReturn (false: SymlinkErrLog)
+  maxPass : Nat            -- MaxPass
+  maxSize : Nat            -- MaxSizeBytes
+  req : Req                -- Requirer
+  dirStr : String          -- the text of `dir` handed to the unpacker (fullPath = dirStr/cleanPath as a string)
+  cwd : Path               -- the working directory of the process: where the kernel starts a RELATIVE path
+
+/-- `DefaultUnpackerConfig()` -/
+def Cfg.dflt : Cfg := ⟨true, false, 3, 1024 * 1024 * 1024, .all, "", []⟩
+
+/-- `path.Clean(header.Name)` as a string -/
+def cleanStr (e : TarEntry) : String :=
+  let c := cleanComps e.nameAbs e.nameComps
+  (Clean.mk e.nameAbs c.1 c.2).render
+
+/-- the three spellings under which an entry is looked up (requirer, required link targets): fullPath, cleanPath,
+`filepath.Join("/", cleanPath)` -/
+def lookupKeys (cfg : Cfg) (e : TarEntry) : List String :=
+  let c := cleanStr e
+  let full := (clean (cfg.dirStr ++ "/" ++ c)).render
+  [full, c, (clean ("/" ++ c)).render]
+
+/-- `filepath.Dir` of a cleaned path -/
+def dirStrOf (c : String) : String :=
+  let cs := c.splitOn "/"
+  if cs.length ≤ 1 then "." else
+  let d := "/".intercalate cs.dropLast
+  if d = "" then "/" else d
+
+/-- the key a link entry adds to the required targets: the raw text of an absolute target, `Join(Dir(cleanPath), target)` otherwise -/
+def targetKey (e : TarEntry) : String :=
+  if e.linkAbs then e.linkRaw else (clean (dirStrOf (cleanStr e) ++ "/" ++ e.linkRaw)).render
+
+def Req.wants (r : Req) (keys : List String) : Bool :=
+  match r with
+  | .all => true
+  | .none => false
+  | .paths ps => keys.any ps.contains
+
+/-- state of a pass: the file system and `currRequiredTargets` -/
+abbrev PSt := FS × List String
+
 inductive Step
-  | ok (s : FS)
+  | ok (s : PSt)
   | fatal (s : FS)        -- `unpack` returns an error: no further entry, no further pass, no clean-up
 
-/-- one iteration of the loop of `unpack()` -/
-def unpackStep (D : Path) (s : FS) (e : TarEntry) : Step :=
-  let c := cleanComps e.nameAbs e.nameComps                          -- cleanPath = path.Clean(header.Name)
-  let cleanSegs := List.replicate c.1 ".." ++ c.2
-  let full := (cleanComps true (D ++ cleanSegs)).2                   -- path.Join(dir, cleanPath)
-  if !isPrefix D full then .ok s else                                -- isWithinDirectory(dir, fullPath)
-  let rel := full.drop D.length
-  if lstatOk D s rel then .ok s else                                 -- already unpacked
+def MkRes.failed : MkRes → Bool
+  | .fail _ => true
+  | _ => false
+
+/-- a symbolic or hard link entry, once the directories above it have been tried: `s1` the state, `tg0` the required
+targets so far -/
+def linkAt (cfg : Cfg) (D : Path) (fin : Bool) (s1 : FS) (tg0 : List String) (e : TarEntry) (cleanSegs rel : List String) : Step :=
+  match resolveA D s1 D rel.dropLast with                          -- pathOutsideBaseDirectory(dir, fullPath) (fix <P6>)
+  | .error _ => .ok (s1, tg0)
+  | .ok pp =>
+    if !isPrefix D pp then .ok (s1, tg0) else
+    if targetOutsideRoot cleanSegs.dropLast e.linkAbs e.linkComps then .ok (s1, tg0) else
+    let tg := targetKey e :: tg0                                   -- currRequiredTargets[...] = true
+    let name := rel.getLast?.getD ""
+    let cannotCreate := s1.get pp != some .dir || tooLong name || (s1.get (pp ++ [name])).isSome
+    if cfg.retain then
+      -- os.Symlink(targetPath, fullPath)
+      if e.linkRaw = "" || cannotCreate then (if cfg.errReturn then .fatal s1 else .ok (s1, tg))
+      else .ok (s1.put (pp ++ [name]) (.link (entryTarget e)), tg)
+    else
+      -- os.ReadFile(targetPath): an absolute target is joined to dir, a RELATIVE one is read as it stands, from the working directory
+      let content : Option Nat :=
+        if e.linkRaw = "" then none else
+        match (if e.linkAbs then resolveA D s1 D (cleanComps true e.linkComps).2 else resolveA D s1 cfg.cwd e.linkComps) with
+        | .ok q => (match s1.get q with | some (.file c) => some c | _ => none)
+        | .error _ => none
+      match content with
+      | none => if !fin then .ok (s1, tg) else if cfg.errReturn then .fatal s1 else .ok (s1, tg)
+      | some c =>
+        -- os.WriteFile(fullPath, content, 0644)
+        if cannotCreate then (if cfg.errReturn then .fatal s1 else .ok (s1, tg))
+        else .ok (s1.put (pp ++ [name]) (.file c), tg)
+
+/-- what `unpack()` does with an entry that passed the size, containment, "already unpacked" and requirer tests;
+`cleanSegs` = the cleaned name, `rel` = where it lies below `D` -/
+def stepAt (cfg : Cfg) (D : Path) (fin : Bool) (st : PSt) (e : TarEntry) (cleanSegs rel : List String) : Step :=
+  let s := st.1
   match e.typ with
   | 'r' =>
     match mkdirAllIn D s [] rel.dropLast with
     | .fail s1 => .fatal s1
-    | .outside s1 => .ok s1                                          -- logged, entry skipped
+    | .outside s1 => .ok (s1, st.2)                                  -- logged, entry skipped
     | .ok s1 =>
       match resolveA D s1 D rel.dropLast with                        -- pathOutsideBaseDirectory: EvalSymlinks(parent)
-      | .error _ => .ok s1
+      | .error _ => .ok (s1, st.2)
       | .ok pp =>
-        if !isPrefix D pp then .ok s1 else
+        if !isPrefix D pp then .ok (s1, st.2) else
         let name := rel.getLast?.getD ""
         if tooLong name then .fatal s1
         else
           match s1.get (pp ++ [name]) with
-          | none => .ok (s1.put (pp ++ [name]) (.file e.cid))        -- os.WriteFile
+          | none => .ok (s1.put (pp ++ [name]) (.file e.cid), st.2)  -- os.WriteFile
           | some _ => .fatal s1
   | 'l' =>
-    let s1 := (mkdirAllIn D s [] rel.dropLast).state                 -- failure is logged only (SymlinkErrLog)
-    match resolveA D s1 D rel.dropLast with                          -- pathOutsideBaseDirectory(dir, fullPath) (fix dccd4936)
-    | .error _ => .ok s1
-    | .ok pp =>
-      if !isPrefix D pp then .ok s1 else
-      if targetOutsideRoot cleanSegs.dropLast e.linkAbs e.linkComps then .ok s1 else
-      if e.linkRaw = "" then .ok s1 else
-      let name := rel.getLast?.getD ""                               -- os.Symlink(targetPath, fullPath)
-      if s1.get pp != some .dir || tooLong name || (s1.get (pp ++ [name])).isSome then .ok s1
-      else .ok (s1.put (pp ++ [name]) (.link (entryTarget e)))
+    let mk := mkdirAllIn D s [] rel.dropLast
+    -- a failure is logged; with SymlinkErrReturn every failure but "outside the base directory" ends the unpacking
+    if cfg.errReturn && mk.failed then .fatal mk.state else linkAt cfg D fin mk.state st.2 e cleanSegs rel
   | 'd' =>
-    -- a directory entry makes its path a directory (fix 810097ff); every failure is logged and the entry skipped
+    -- a directory entry makes its path a directory (fix <P7>); every failure is logged and the entry skipped
     match mkdirAllIn D s [] rel.dropLast with
-    | .fail s1 => .ok s1
-    | .outside s1 => .ok s1
+    | .fail s1 => .ok (s1, st.2)
+    | .outside s1 => .ok (s1, st.2)
     | .ok s1 =>
       match resolveA D s1 D rel.dropLast with                        -- pathOutsideBaseDirectory: EvalSymlinks(parent)
-      | .error _ => .ok s1
+      | .error _ => .ok (s1, st.2)
       | .ok pp =>
-        if !isPrefix D pp then .ok s1 else
+        if !isPrefix D pp then .ok (s1, st.2) else
         let name := rel.getLast?.getD ""
-        if s1.get pp != some .dir || tooLong name || (s1.get (pp ++ [name])).isSome then .ok s1
-        else .ok (s1.put (pp ++ [name]) .dir)                        -- os.Mkdir
-  | _ => .ok s                                                       -- other types: no case
+        if s1.get pp != some .dir || tooLong name || (s1.get (pp ++ [name])).isSome then .ok (s1, st.2)
+        else .ok (s1.put (pp ++ [name]) .dir, st.2)                  -- os.Mkdir
+  | _ => .ok st                                                      -- other types: no case
 
-def unpackPass (D : Path) (s : FS) (es : List TarEntry) : Step :=
-  es.foldl (fun st e => match st with | .fatal f => .fatal f | .ok f => unpackStep D f e) (.ok s)
+
+/-- one iteration of the loop of `unpack()`; `fin` = this is the final pass -/
+def unpackStep (cfg : Cfg) (D : Path) (fin : Bool) (st : PSt) (e : TarEntry) : Step :=
+  let s := st.1
+  if e.size > cfg.maxSize then .ok st else                           -- header.Size > maxSizeBytes
+  let c := cleanComps e.nameAbs e.nameComps                          -- cleanPath = path.Clean(header.Name)
+  let cleanSegs := List.replicate c.1 ".." ++ c.2
+  let full := (cleanComps true (D ++ cleanSegs)).2                   -- path.Join(dir, cleanPath)
+  if !isPrefix D full then .ok st else                               -- isWithinDirectory(dir, fullPath)
+  let rel := full.drop D.length
+  if lstatOk D s rel then .ok st else                                -- already unpacked
+  let keys := lookupKeys cfg e
+  if !(cfg.req.wants keys || keys.any st.2.contains) then .ok st else   -- not required, not the target of a required link
+  stepAt cfg D fin st e cleanSegs rel
+
+/-- what a step leaves behind, fatal or not -/
+def Step.state : Step → FS
+  | .ok s => s.1
+  | .fatal s => s
+
+def unpackPass (cfg : Cfg) (D : Path) (fin : Bool) (st : PSt) (es : List TarEntry) : Step :=
+  es.foldl (fun r e => match r with | .fatal f => .fatal f | .ok x => unpackStep cfg D fin x e) (.ok st)
 
 def insertName (a : String) : List String → List String
   | [] => [a]
@@ -227,16 +323,27 @@ def removeObsolete (D : Path) : Nat → FS → Path → FS
       | some .dir => removeObsolete D fuel s p
       | _ => s) s
 
-/-- `UnpackSquashedFromTarball`: three passes, then the clean-up; `false` = an error was returned -/
-def unpackAll (D : Path) (s : FS) (es : List TarEntry) : FS × Bool :=
-  match unpackPass D s es with
+/-- the passes `k … maxPass-1` of `UnpackSquashedFromTarball`; the required targets are handed from pass to pass -/
+def passes (cfg : Cfg) (D : Path) (es : List TarEntry) : Nat → Nat → PSt → Step
+  | 0, _, st => .ok st
+  | n+1, k, st =>
+    match unpackPass cfg D (k + 1 == cfg.maxPass) st es with
+    | .fatal f => .fatal f
+    | .ok st1 => passes cfg D es n (k+1) st1
+
+/-- `UnpackSquashedFromTarball`: `MaxPass` passes, then the clean-up; `false` = an error was returned -/
+def unpackAllC (cfg : Cfg) (D : Path) (s : FS) (es : List TarEntry) : FS × Bool :=
+  match passes cfg D es cfg.maxPass 0 (s, []) with
   | .fatal f => (f, false)
-  | .ok s1 =>
-    match unpackPass D s1 es with
-    | .fatal f => (f, false)
-    | .ok s2 =>
-      match unpackPass D s2 es with
-      | .fatal f => (f, false)
-      | .ok s3 => (removeObsolete D 64 s3 D, true)
+  | .ok st => (removeObsolete D 64 st.1 D, true)
+
+/-- the tarball is cut inside its `k`-th entry (header or body): the first pass handles the `k` entries before it, then
+`tarReader.Next()` / `io.Copy` fails and `unpack` returns the error — no further pass, no clean-up -/
+def unpackAllCut (cfg : Cfg) (D : Path) (s : FS) (es : List TarEntry) (k : Nat) : FS × Bool :=
+  if cfg.maxPass = 0 then (removeObsolete D 64 s D, true) else
+  ((unpackPass cfg D (1 == cfg.maxPass) (s, []) (es.take k)).state, false)
+
+/-- … with the default configuration -/
+def unpackAll (D : Path) (s : FS) (es : List TarEntry) : FS × Bool := unpackAllC Cfg.dflt D s es
 
 end Scalibr.Unpack
